@@ -290,7 +290,7 @@ def op_list(draw, max_modules=8, max_ops=30, with_save_load=False, big=False, wi
             sp = draw(st.sampled_from(["rshift", "lshift", "connect_to", "connect_from"]))
             ops.append(["reuse", sp, idxs(2, 3), [[i, draw(st.booleans())] for i in idxs(1, 3)]])
         elif kind == "xmix":
-            sp = draw(st.sampled_from(["connect_to", "connect_from", "rshift", "lshift"]))
+            sp = draw(st.sampled_from(["connect_to", "connect_from", "rshift", "lshift", "mlist_rshift", "mlist_lshift", "chain_empty"]))
             own = [[i, draw(st.booleans()) if sp.startswith("connect") else False] for i in idxs(1, 3)]
             ops.append(["xmix", sp, [idx(), False], own, draw(st.integers(1, 2)), draw(st.integers(0, 3))])
         elif kind == "xlink":
@@ -359,7 +359,7 @@ def run_ops(ctx, case, prop="C07", on_save_load=None):
             a, dis_a = op[2]
             asked = {}
             for b, dis_b in op[3]:
-                pair = (a, b) if op[1] in ("connect_to", "rshift") else (b, a)
+                pair = (a, b) if op[1] in ("connect_to", "rshift", "mlist_lshift") else (b, a)
                 dis = (dis_a or dis_b) if op[1].startswith("connect") else False
                 asked.setdefault(pair, set()).add(dis)
             for pair in (E_before | E_after):
